@@ -30,6 +30,8 @@ Next == UNCHANGED t
 \* after_sibling: the tree is generated in a program whose EARLIER items use its sibling Sib(t) - the same constructors over other
 \* leaf types (and another array length): what a backend remembers from one item to the next must not reach the translation of t
 Configs == {"base", "mapped", "prefixed", "prefixed_mapped", "mapped_container", "lang_options", "after_sibling"}      \* mapped_container: "Vec<u8>" = Name (TypeScript, Go, Python)
+\* (Sib2(t), also used by the earlier items: t itself with every array given another LENGTH - lengths are not part of the abstract
+\* tree, so Sib2 is the identity here and a rendering choice of the harness)
 RECURSIVE Sib(_)
 Sib(x) == CASE x.k = "prim" -> [x EXCEPT !.n = IF x.n = "String" THEN "u32" ELSE "String"]
             [] x.k \in {"vec", "array", "slice", "option", "ref", "path", "wrap"} -> [x EXCEPT !.e = Sib(x.e)]
